@@ -254,6 +254,56 @@ def mutants(args):
     return 1 if missed else 0
 
 
+def conforming(args):
+    """Variants of the implementation that still satisfy every claimed property (they differ only
+    where the properties leave behaviour open, or are pure refactors). Every check must stay green
+    on them: the no-false-alarm side of sensitivity."""
+    cat = json.load(open(os.path.join(VERIF, "mutants", "conforming.json")))
+    if args:
+        cat = [m for m in cat if m["name"] in args]
+    t0 = time.time()
+    bad = 0
+    sc = Scratch()
+    try:
+        for m in cat:
+            saved = {}
+            ok_apply = True
+            for e in m["edits"]:
+                path = os.path.join(sc.repo, e["file"])
+                src = open(path).read()
+                saved.setdefault(path, src)
+                if src.count(e["old"]) != 1:
+                    ok_apply = False
+                    break
+                open(path, "w").write(src.replace(e["old"], e["new"]))
+            try:
+                if not ok_apply:
+                    print(f"{m['name']:48s} ERROR pattern does not apply", flush=True)
+                    bad += 1
+                    continue
+                cells = []
+                for p in CLAIMED:
+                    rc, out, err = sc.check(p, "--tier", "quick")
+                    if rc != 0:
+                        bad += 1
+                        rule = re.search(r"violated rule (\S+)", out)
+                        cells.append(f"{p}:ALARM({rule.group(1) if rule else 'rc=%d' % rc})")
+                        for l in out.splitlines():
+                            if l.startswith("violated") or "minimised" in l:
+                                print("    " + l[:400])
+                    notes = [l for l in out.splitlines() if l.startswith("note: rules")]
+                    if notes:
+                        cells.append(f"{p}:{notes[0][:120]}")
+                print(f"{m['name']:48s} " + ("all 11 checks green" if not cells else "  ".join(cells)), flush=True)
+            finally:
+                for pth, orig in saved.items():
+                    open(pth, "w").write(orig)
+    finally:
+        sc.close()
+    print(f"conforming: {len(cat)} variants, {bad} alarms ({time.time() - t0:.0f}s)")
+    return 1 if bad else 0
+
+
 def seeded(args):
     base = os.path.join(VERIF, "seeded")
     ids = sorted(d for d in os.listdir(base) if os.path.isdir(os.path.join(base, d))) if os.path.isdir(base) else []
@@ -305,7 +355,7 @@ def main():
         print(__doc__)
         return 2
     cmd = args.pop(0)
-    return {"determinism": determinism, "alarms": alarms, "mutants": mutants, "seeded": seeded}.get(cmd, lambda a: (print(__doc__), 2)[1])(args)
+    return {"determinism": determinism, "alarms": alarms, "mutants": mutants, "seeded": seeded, "conforming": conforming}.get(cmd, lambda a: (print(__doc__), 2)[1])(args)
 
 
 if __name__ == "__main__":
